@@ -41,7 +41,11 @@ RULE = ('fitted GaussianMultivariate models with 2-6 columns (latent 2-factor no
         'correlation / one more column / one column fewer), optionally back to A or a third table; the tie runs the '
         'model - a function of the CURRENT correlation only - against that object; the search requires the seeded '
         'sample (bitwise) and the moments handed to the sampler (1e-12) to equal those of a FRESH object fitted once '
-        'on the last table')
+        'on the last table.  ILL-CONDITIONED conditioning blocks (tie and search, quick tier too): models whose '
+        'first 2..d columns are near-duplicates (common component + independent noise of relative size 1e-4..1e-1) '
+        'or equicorrelated (rho 0.9-0.999), the other columns loading also on one block column\'s own noise; '
+        'conditioning on 2..d-1 of the block gives invertible S22 with cond 1e2..1e8 (histogram cond(S22):*); the '
+        'independent float64 reference uses np.linalg.solve, tolerance 1e-10*max(1, cond/100)')
 PARTIAL = ['conditional_law_partial: that N(mu_bar, Sigma_bar) IS the conditional law of a partitioned normal is '
            'the classical theorem, not re-proved (its algebraic core - residual uncorrelated with the conditioned '
            'block, residual covariance = Schur complement - is proved); that numpy draws from N(mean, cov) is in '
@@ -97,6 +101,38 @@ def make_spec(rng, d=None, kind=None):
             'nrows': rng.choice([120, 200, 400])}
 
 
+def make_illcond_spec(rng, d=None, kind=None, structure=None, eps=None, gaussian_block=False):
+    """a model whose first `block` columns (in a shuffled label order) are strongly but not perfectly
+    correlated, so that conditioning on 2..d-1 of them gives an ill-conditioned but invertible S22
+    (cond(S22) from ~1e2 to ~1e8): `neardup` = common component + independent noise of relative size eps
+    (rho = 1/(1+eps^2), cond of a pair ~ 2/eps^2); `equi` = equicorrelated block with rho 0.9-0.999.  The
+    other columns load on the common component AND on one block column's own noise, so the small eigen
+    directions of S22 matter for the conditional law."""
+    d = d or rng.choice([3, 3, 4, 5, 6])
+    spec = make_spec(rng, d=d, kind=kind)
+    structure = structure or rng.choice(['neardup', 'equi'])
+    block = rng.randrange(2, d + 1) if d > 2 else 2
+    if structure == 'neardup':
+        corr = {'kind': 'neardup', 'block': block, 'eps': eps or 10 ** rng.uniform(-4.0, -0.9)}
+    else:
+        corr = {'kind': 'equi', 'block': block, 'rho': rng.choice([0.9, 0.97, 0.99, 0.995, 0.999])}
+    spec['corr'] = corr
+    spec['dists'] = [('gaussian' if gaussian_block or rng.random() < 0.75 else rng.choice(['uniform', 'gamma'])) if j < block
+                     else rng.choice(['gaussian', 'gaussian', 'uniform', 'gamma']) for j in range(d)]
+    spec['nrows'] = rng.choice([200, 400])
+    return spec
+
+
+def block_subsets(rng, spec, cap=None):
+    """conditioning sets made of 2..d-1 of the strongly correlated columns (training order)."""
+    k = spec['corr']['block']
+    blk = spec['labels'][:k]
+    out = [list(c) for r in range(2, min(k, spec['d'] - 1) + 1) for c in itertools.combinations(blk, r)]
+    if cap and len(out) > cap:
+        out = rng.sample(out, cap)
+    return out
+
+
 def spec_key(spec):
     return json.dumps(spec, sort_keys=True)
 
@@ -113,11 +149,25 @@ def make_table(spec):
     """deterministic training table of a (plain) spec."""
     d = spec['d']
     rs = np.random.RandomState(spec['seed'])
-    A = rs.randn(d, 2)
-    C = A @ A.T + np.diag(rs.uniform(0.4, 1.5, d))
-    s = np.sqrt(np.diag(C))
-    C = C / np.outer(s, s)
-    z = rs.multivariate_normal(np.zeros(d), C, size=spec['nrows'])
+    if 'corr' in spec:
+        cs, k, n = spec['corr'], spec['corr']['block'], spec['nrows']
+        g = rs.randn(n)
+        e = rs.randn(n, d)
+        z = np.empty((n, d))
+        for j in range(d):
+            if j < k and cs['kind'] == 'neardup':
+                z[:, j] = (g + cs['eps'] * e[:, j]) / math.sqrt(1 + cs['eps'] ** 2)
+            elif j < k:
+                z[:, j] = math.sqrt(cs['rho']) * g + math.sqrt(1 - cs['rho']) * e[:, j]
+            else:
+                a, b, c = rs.uniform(0.3, 0.8), rs.uniform(0.3, 0.8), rs.uniform(0.3, 0.8)
+                z[:, j] = (a * g + b * e[:, rs.randint(k)] + c * e[:, j]) / math.sqrt(a * a + b * b + c * c)
+    else:
+        A = rs.randn(d, 2)
+        C = A @ A.T + np.diag(rs.uniform(0.4, 1.5, d))
+        s = np.sqrt(np.diag(C))
+        C = C / np.outer(s, s)
+        z = rs.multivariate_normal(np.zeros(d), C, size=spec['nrows'])
     u = stats.norm.cdf(z)
     data = {}
     for j, (lab, dist) in enumerate(zip(spec['labels'], spec['dists'])):
@@ -472,13 +522,20 @@ def gen_cases(ctx):
         other = derive_spec(rng, spec)
         hist.append(dict(other, refit_from=[spec]))
         hist.append(dict(spec, refit_from=[spec, other]))
-    specs = specs[:3] + hist + specs[3:]
+    # ill-conditioned but invertible conditioning blocks (cond(S22) ~ 1e2 .. 1e8)
+    ill = [make_illcond_spec(rng, d=3, structure='neardup', eps=10 ** rng.uniform(-4.0, -3.0), gaussian_block=True),
+           make_illcond_spec(rng, d=4, structure='equi'), make_illcond_spec(rng, d=6, structure='equi')]
+    ill += [make_illcond_spec(rng) for _ in range(1 if ctx.tier == 'quick' else 20)]
+    specs = specs[:3] + hist + ill + specs[3:]
     for si, spec in enumerate(specs):
         model, df = build(spec)
         labels = spec['labels']
         subs = subsets(rng, labels)
         if ctx.tier == 'quick' and len(subs) > 8 and si >= 3:
             subs = rng.sample(subs, 8)
+        if 'corr' in spec:
+            blk = block_subsets(rng, spec, cap=6 if ctx.tier == 'quick' else 14)
+            subs = blk + [x for x in subs if x not in blk][:4]
         for sub in subs:
             mode = rng.choice(['inside', 'inside', 'outside', 'edge', 'int', 'center'])
             items = [(k, pick_value(rng, df[k].to_numpy(), mode if rng.random() < 0.8 else 'inside')) for k in sub]
@@ -539,6 +596,10 @@ def run(ctx, lean):
         ctx.count(f'order:{tags["order"]}')
         ctx.count(f'values:{tags["mode"]}')
         ctx.count(f'd:{spec["d"]}')
+        if tags['wellformed'] and len(items) >= 2:
+            ks = [k for k, _ in items]
+            c22 = float(np.linalg.cond(model.correlation.loc[ks, ks].to_numpy()))
+            ctx.count('cond(S22):' + ('<1e2' if c22 < 1e2 else '1e%d..' % int(math.floor(math.log10(c22)))))
         ctx.count(f'labels:{spec["kind"]}')
         ctx.count('fit-history:' + (f'{len(spec["refit_from"])}-earlier-fits' if 'refit_from' in spec else 'single-fit'))
         ctx.count('real:' + (res[0] if res[0] == 'ok' else 'err ' + res[1]))
@@ -620,6 +681,23 @@ def schur(model, items):
     return c1, c2, z, mu, sig, float(np.linalg.cond(s22))
 
 
+def mean_class(model, items, c1, mean_obs, in_order, default):
+    """class key of a wrong conditional mean: the order-mislabelling defect only if the observed mean IS the
+    Schur mean for scores attached to the caller's key order (what the code as found did)."""
+    if in_order:
+        return default
+    try:
+        _, c2, z, _, _, _ = schur(model, items)
+        keys = [k for k, _ in items if k in c2]
+        S = model.correlation
+        wrong = S.loc[c1, keys].to_numpy() @ np.linalg.solve(S.loc[keys, keys].to_numpy(), z)
+        if np.shape(mean_obs) == wrong.shape and close_arr(mean_obs, wrong, 1e-6 * max(1.0, float(np.max(np.abs(z))))):
+            return CLS_ORDER
+    except Exception:  # noqa
+        pass
+    return default
+
+
 def payload(spec, items, container, n, seed):
     return {'model': spec, 'conditions': [[k, v] for k, v in items], 'container': container, 'n': n, 'seed': seed}
 
@@ -667,7 +745,7 @@ def oracle_case(ctx, spec, items, container, n, seed, in_order):
     if cond22 > 1e8:
         ctx.count('search:skipped-ill-conditioned')
         return checks
-    tol = 1e-9 * max(1.0, cond22 / 1e2)
+    tol = 1e-10 * max(1.0, cond22 / 1e2)     # ~ 4.5e3 * cond(S22) * eps; observed on the unchanged code: ~0.2 * cond * eps
     zmax = max(1.0, float(np.max(np.abs(z))))
     cols1 = rec.gcd[0][2][2] if rec.gcd else None
     lab = list(cols1) if cols1 is not None and sorted(cols1) == c1 else c1
@@ -684,7 +762,7 @@ def oracle_case(ctx, spec, items, container, n, seed, in_order):
         if not ok_mean:
             ctx.fail_input(ep, inp, {'mean ' + what: mean.tolist(), 'columns': [str(c) for c in lab]},
                            f'mean S12 S22^-1 z = {mu.tolist()} for columns {[str(c) for c in c1]} (scores z labelled '
-                           f'by their own columns)', CLS_MOMENTS if in_order else CLS_ORDER)
+                           f'by their own columns)', mean_class(model, items, c1, mean[perm] if mean.shape == mu.shape else mean, in_order, CLS_MOMENTS))
         if not ok_cov:
             ctx.fail_input(ep, inp, {'cov ' + what: cov.tolist()},
                            f'covariance S11 - S12 S22^-1 S21 = {sig.tolist()}', CLS_MOMENTS)
@@ -755,7 +833,7 @@ def law_case(ctx, spec, items, container, n, seed, in_order):
         bad = True
         ctx.fail_input(ep, inp, {'columns': [str(c) for c in c1], 'score-space mean of the output': a.tolist(),
                                  'how': 'output scores = 1 a\' + G B exactly, G = RandomState(seed).standard_normal'},
-                       f'mean S12 S22^-1 z = {mu.tolist()}', CLS_STAT if in_order else CLS_ORDER)
+                       f'mean S12 S22^-1 z = {mu.tolist()}', mean_class(model, items, c1, a, in_order, CLS_STAT))
     if not close_arr(law_cov, sig, tol):
         bad = True
         ctx.fail_input(ep, inp, {'columns': [str(c) for c in c1], 'score-space covariance of the output': law_cov.tolist(),
@@ -972,6 +1050,26 @@ def search(ctx, deep):
                 ctx.count('search:law:' + r + (':one-free-column' if single else ''))
                 if r == 'unidentified':
                     unidentified.append((spec, citems))
+    # ill-conditioned but invertible conditioning blocks: near-duplicate / equicorrelated columns, conditioning
+    # on 2..d-1 of them; the independent float64 reference (np.linalg.solve) decides, tolerance ~ cond(S22)
+    nill = 0
+    ill = [make_illcond_spec(rng, d=3, structure='neardup', eps=10 ** rng.uniform(-4.0, -3.0), gaussian_block=True),
+           make_illcond_spec(rng, d=4, structure='neardup', eps=10 ** rng.uniform(-2.5, -1.0), gaussian_block=True),
+           make_illcond_spec(rng, d=6, structure='equi')]
+    ill += [make_illcond_spec(rng) for _ in range(12 if deep else 2)]
+    for spec in ill:
+        model, df = build(spec)
+        for sub in block_subsets(rng, spec, cap=12 if deep else 5):
+            items = [(k, pick_value(rng, df[k].to_numpy(), rng.choice(['inside', 'center', 'outside']))) for k in sub]
+            for it, container, in_order in [(items, 'dict', True), (items[::-1], 'series', False)]:
+                nill += 1
+                c22 = schur(model, it)[5]
+                ctx.count('search:ill-conditioned:cond(S22) ' + ('<1e2' if c22 < 1e2 else '1e%d..' % int(math.floor(math.log10(c22)))))
+                checks += oracle_case(ctx, spec, it, container, rng.choice([1, 3]), rng.randrange(2 ** 32), in_order)
+            citems = [(k, pick_value(rng, df[k].to_numpy(), 'center')) for k in sub]
+            r = law_case(ctx, spec, citems, 'dict', 40 + 4 * spec['d'], rng.randrange(2 ** 32), True)
+            checks += 1
+            ctx.count('search:law:' + r + ':ill-conditioned')
     # fit histories: the conditional law must be that of the CURRENT fit
     nhist = 0
     for what, hspec in history_specs(rng, deep):
@@ -1005,7 +1103,7 @@ def search(ctx, deep):
             nstat += 1 if c else 0
             if c:
                 ctx.count('search:stat' + (':one-free-column' if len(items) == spec['d'] - 1 else ''))
-    ctx.support = {'oracle_checks': checks, 'cases': ncases, 'law_cases': nlaw, 'history_cases': nhist,
+    ctx.support = {'oracle_checks': checks, 'cases': ncases, 'law_cases': nlaw, 'history_cases': nhist, 'ill_conditioned_cases': nill,
                    'statistical_cases': nstat,
                    'deep': deep, 'failures': len(ctx.failing)}
 
